@@ -44,7 +44,7 @@ Lens == IF Dev_ShortLens THEN SubSeq(ProbeLens, 1, Len(ProbeLens) - 1) ELSE Prob
 
 \* what the contract sees
 CC == [has |-> C.has, req |-> ToSet(C.sessions), skipAll |-> C.skipAll, skip |-> C.skip,
-       respIds |-> C.respIds, tp |-> FALSE, start |-> 1, U |-> Sids]
+       respIds |-> C.respIds, tp |-> FALSE, start |-> 1, U |-> Sids, reset |-> 0]
 EE == [pl |-> ProbeLens, dom |-> ModelSessions,
        ans  |-> [k \in ModelSessions \X Sids |-> [i \in 1..Len(ProbeLens) |-> ClassAns(M.svc[k], ProbeLens[i])]],
        impl |-> [k \in ModelSessions \X Sids |-> ClassImpl(M.svc[k])]]
